@@ -149,6 +149,7 @@ func runC19(c *Ctx) {
 	r.Clauses = []string{
 		"C19.1 in every merge-walk that computes a replication round, what is scheduled for deletion comes from the local input and what is scheduled for upsert from the remote input",
 		"C19.3 both tails of the walk are drained: each result list is appended to in the merge loop and in a tail loop of its own",
+		"C19.2 within a round the deletions are applied before the upserts",
 		"C19.4 nothing is applied when nothing differs: the apply steps lie below len(deletions) > 0 / len(updates) > 0",
 		"C19.5 the remote index is returned (advanced) only on paths where no apply step reported an error",
 		"C19.6 cursor discipline: a cursor of the walk advances only past an element that was matched, scheduled, or skipped for having an empty ID of its own",
@@ -583,6 +584,56 @@ func checkReplicationRounds(c *Ctx) {
 				}
 			}
 		}
+		// C19.2: deletions are applied before upserts (an upsert may address the row a deletion
+		// removes: names are unique per type, config entries are keyed case-insensitively)
+		kindOf := func(ap *ssa.Call) string {
+			switch core.MethodNameOf(&ap.Call) {
+			case "deleteLocalACLType", "PerformDeletions":
+				return "delete"
+			case "updateLocalACLType", "PerformUpdates":
+				return "upsert"
+			}
+			for _, a := range ap.Call.Args {
+				if s, ok := core.ConstString(a); ok {
+					switch s {
+					case "delete":
+						return "delete"
+					case "upsert":
+						return "upsert"
+					}
+				}
+			}
+			return ""
+		}
+		var dels, ups []*ssa.Call
+		for _, ap := range applies {
+			switch kindOf(ap) {
+			case "delete":
+				dels = append(dels, ap)
+			case "upsert":
+				ups = append(ups, ap)
+			}
+		}
+		if len(dels) > 0 && len(ups) > 0 {
+			bad := ""
+			for _, u := range ups {
+				w := &core.Walk{Visit: func(in ssa.Instruction) {
+					for _, d := range dels {
+						if in == ssa.Instruction(d) {
+							bad = p.Pos(d.Pos())
+						}
+					}
+				}}
+				w.FromInstr(u)
+			}
+			if bad != "" {
+				r.Violate("C19.2", name, p.FuncPos(f), "the deletions of a round are applied (at "+bad+") after its upserts: when an upsert addresses the row a deletion names (an object re-created under the same unique name, a config entry renamed only in letter case) the object ends up deleted and the round still reports success")
+			} else {
+				r.Hold("C19.2", name, p.FuncPos(f), "deletions are applied before upserts")
+			}
+		} else if len(applies) > 0 {
+			r.Undecide("C19.2", name, p.FuncPos(f), fmt.Sprintf("apply steps could not be classified (deletes=%d upserts=%d)", len(dels), len(ups)))
+		}
 		for i, ap := range applies {
 			construct := fmt.Sprintf("%s/%s#%d", name, core.MethodNameOf(&ap.Call), i+1)
 			if len(lenEdges) > 0 && core.CutMakesUnreachable(f, nil, lenEdges, ap) {
@@ -632,6 +683,7 @@ func checkReplicationRounds(c *Ctx) {
 			}
 		}
 	}
+	r.Floor("C19.2", 3)
 	r.Floor("C19.4", 4)
 	r.Floor("C19.5", 4)
 }
